@@ -437,7 +437,7 @@ def main():
         "checks": checks,
         "not_applicable": na,
         "notes": "Entry point ./check <id> quick|thorough [--replay file]; exit 0 held, 1 VIOLATION, 2 tool error. "
-                 "known_findings.jsonl lists recorded defects (open) and repaired ones (fixed).",
+                 "known_findings.jsonl lists recorded defects (open) and repaired ones (fixed); KNOWN_FINDINGS.txt is the same list in the line format `fixed: property=<id> <commit> <what>` / `open: property=<id> key=<key> <what>` (generated by python3 -m vp.findings_txt, never written by a check). seeded/ holds the independently seeded changes and the sub-agents' reports (DESIGN 11.6-11.9).",
     }
     with open(os.path.join(C.VERIF, "MANIFEST.json"), "w") as f:
         json.dump(m, f, indent=1)
